@@ -164,6 +164,53 @@ def get_info(log):
     return None
 
 
+def _lex(pairs):
+    """strict lexicographic less-than from a list of (lt, eq) z3 pairs"""
+    r = z3.BoolVal(False)
+    for lt, eq in reversed(pairs):
+        r = z3.Or(lt, z3.And(eq, r))
+    return r
+
+
+def order_hint(info):
+    """The real TimeoutQC keeps its vote groups in a BTreeMap ordered by the derived Ord of ReplicaTimeout; the model keeps
+    them in construction order (every order is explored by symmetry). A counterexample whose groups are, in construction
+    order, ascending in the part of the derived order that does not depend on signature bytes can be rebuilt by the replay
+    with the same iteration order. Returns that preference as a z3 constraint (None if not applicable)."""
+    if not info or info.get('kind') != 'timeout_verify': return None
+    gs = info['tq']['groups']
+    if len(gs) < 2: return None
+    cs = []
+    for a, b in zip(gs, gs[1:]):
+        pairs = [(a['mv'].e < b['mv'].e, a['mv'].e == b['mv'].e)]
+        # high_vote: None < Some; two Some are ordered by fields including opaque hashes: not constrained
+        if a['hv'] is None and b['hv'] is not None: pairs.append((z3.BoolVal(True), z3.BoolVal(False)))
+        elif a['hv'] is None and b['hv'] is None: pairs.append((z3.BoolVal(False), z3.BoolVal(True)))
+        elif a['hv'] is not None and b['hv'] is None: pairs.append((z3.BoolVal(False), z3.BoolVal(False)))
+        else:
+            pairs.append((z3.And(a['hv']['g'] == b['hv']['g'], a['hv']['e'].e == b['hv']['e'].e, a['hv']['v'].e < b['hv']['v'].e), z3.BoolVal(False)))
+        if pairs[-1][1] is not None:
+            qa, qb = a['hq'], b['hq']
+            if qa is None and qb is not None: pairs.append((z3.BoolVal(True), z3.BoolVal(False)))
+            elif qa is None and qb is None: pairs.append((z3.BoolVal(False), z3.BoolVal(True)))
+            elif qa is not None and qb is None: pairs.append((z3.BoolVal(False), z3.BoolVal(False)))
+            else:
+                same_msg = z3.And(qa['g'] == qb['g'], qa['e'].e == qb['e'].e, qa['v'].e == qb['v'].e, qa['num'].e == qb['num'].e, qa['hash'] == qb['hash'])
+                bits = [(z3.And(z3.Not(x), y), x == y) for x, y in zip(qa['bits'], qb['bits'])]
+                pairs.append((z3.Or(z3.And(qa['g'] == qb['g'], qa['e'].e == qb['e'].e, qa['v'].e < qb['v'].e), z3.And(same_msg, _lex(bits))), z3.BoolVal(False)))
+        cs.append(_lex(pairs))
+    return z3.And(*cs)
+
+
+def solve_pref(pc, goal, info):
+    """a model of pc and goal, preferring one the replay can rebuild in the same group order"""
+    h = order_hint(info)
+    if h is not None:
+        st, m = solve(pc, z3.And(goal, h))
+        if st == 'sat': return st, m
+    return solve(pc, goal)
+
+
 def classify(rep, res, cond_of, what, N, extra_ok=None):
     """verify == Ok <=> cond; no panic. Returns list of (key, text, model, info, expected_ok)."""
     viol = []
@@ -178,11 +225,11 @@ def classify(rep, res, cond_of, what, N, extra_ok=None):
         r, cond = val
         rep.nontrivial += 1
         if r.variant == 0:
-            st, m = solve(pc, z3.Not(cond))
+            st, m = solve_pref(pc, z3.Not(cond), info)
             if st == 'sat': viol.append((f'{what}:accepts-invalid', f'{what} returns Ok although the acceptance condition is false (N={N})', m, info, False))
             elif st != 'unsat': raise Unmodelled('solver unknown')
         else:
-            st, m = solve(pc, cond)
+            st, m = solve_pref(pc, cond, info)
             if st == 'sat': viol.append((f'{what}:rejects-valid', f'{what} returns Err for a genuinely backed certificate (N={N})', m, info, True))
             elif st != 'unsat': raise Unmodelled('solver unknown')
     return viol
@@ -244,7 +291,7 @@ def check_timeout_verify(rep, db, N, G, entry):
         ex.log.append(('info', info))
         union = [False] * N
         for k in range(G):
-            # group k: its own view number (may differ), optional high vote with its own genesis, optional nested certificate (group 0)
+            # group k: its own view number (may differ), optional high vote with its own genesis, optional nested certificate
             mv = ex.fresh(f'm{k}_v'); ex.assume(mv.e < 2 ** 63)
             hv = none(); hvc = True; hvi = None; hqi = None
             if k > 0 or ex.choose(2, 'hv0') == 0:
@@ -252,8 +299,10 @@ def check_timeout_verify(rep, db, N, G, entry):
                 hv = some(mk.adt(V + r'v2::replica_commit::ReplicaCommit', view=w.view(hg, hvv, he), proposal=w.header(hvn, ('p', k))))
                 hvc = z3.And(hg == w.g0, he.e == w.e0.e); hvi = dict(g=hg, e=he, v=hvv, n=hvn)
             hq = none(); hqc = True
-            if k == 0 and ex.choose(2, 'nested') == 0:
-                nq, ncond, hqi = w.sym_commit_qc('hq', N)
+            # every group may carry its own nested certificate (two groups may even certify the SAME commit message
+            # with different signer sets / signatures: each must be verified on its own)
+            if ex.choose(2, 'nested' if k == 0 else f'nested{k}') == 0:
+                nq, ncond, hqi = w.sym_commit_qc('hq' if k == 0 else f'hq{k}', N)
                 hq = some(nq); hqc = ncond
             msg = mk.adt(V + r'v2::replica_timeout::ReplicaTimeout', view=w.view(g, mv, e), high_vote=hv, high_qc=hq)
             length = N
@@ -441,8 +490,12 @@ def run(rep, db, tier, seed):
         try:
             viol, npaths = fn(rep, db, *args)
             for key, text, m, info, expected in viol:
-                if key in seen: seen[key] += 1; continue
-                seen[key] = 1
+                if key in seen and (seen[key] < 0 or seen[key] >= 8): continue     # reproduced already, or 8 instances tried
+                seen[key] = seen.get(key, 0) + 1
+                if seen[key] > 1:
+                    # an earlier instance of this class did not reproduce (e.g. its vote groups iterate in another order in the
+                    # real BTreeMap): withdraw it and try this instance
+                    rep.violations[:] = [v for v in rep.violations if not (v.key == key and v.reproduced is False)]
                 wit = witness_text(m)
                 path = None; reproduced = None
                 try:
@@ -453,6 +506,7 @@ def run(rep, db, tier, seed):
                 except Exception as ex_:
                     rep.add(Obligation('replay', 'inconclusive', f'replay generation failed: {type(ex_).__name__}: {ex_}'))
                 rep.violation(Violation(PROP, key, text + ' | ' + wit, path, reproduced is True))
+                if reproduced is True: seen[key] = -1
             rep.add(Obligation(name, 'violated' if viol else 'discharged', paths=npaths, wall_s=round(time.time() - t0, 1)))
             if len(rep.samples) < 8: rep.samples.append(f'{name}: {npaths} feasible paths, verify==Ok <=> acceptance condition decided on each')
         except Unmodelled as u:
